@@ -22,6 +22,7 @@ fn main() {
         "record-compile" => record::record_compile(&opts),
         "record-api" => record::record_api(&opts),
         "record-total" => record::record_total(&opts),
+        "record-tree" => record::record_tree(&opts),
         "compile-trees" => record::compile_trees(&opts),
         "compile-text" => record::compile_text(&opts),
         other => {
